@@ -325,7 +325,9 @@ func (st *state) run(line string) string {
 			return "bad-op"
 		}
 		c08x.SetMagic(m)
-		return "ok"
+		// T-observable: the threshold as read back through the hook (a no-op setter would silently collapse the
+		// dense/sparse branch coverage — results do not depend on the threshold)
+		return fmt.Sprintf("magic=%d", bitmap1024.VerifSparseMagic())
 	case f[0] == "load" && len(f) == 3:
 		b, ref, ok := st.reg(f[1])
 		m, ok2 := c08x.ParseMap(f[2])
@@ -1103,6 +1105,47 @@ func genFromData(r *rng.R) corr.Case {
 	return corr.Case{Tag: "fromdata", Lines: lines}
 }
 
+// genFullBlocks: blocks with all 1024 members or all but a few, asked for n around the block size.
+func genFullBlocks(r *rng.R) corr.Case {
+	lines := append([]string{"new"}, pickMagicLine(r)...)
+	kind := r.Pick("big", "tip")
+	nb := r.Range(1, 2)
+	for idx := 0; idx < nb; idx++ {
+		var start int64
+		if kind == "big" {
+			start = r.PickI64(0, 1, 4194303, 4194304, 8388608, 4294967294, int64(r.U64()&0xffffffff))
+		} else {
+			start = r.PickI64(0, 1, 4194303, 4194302, int64(r.U64()&0x3fffff))
+		}
+		switch r.Intn(3) {
+		case 0:
+			lines = append(lines, fmt.Sprintf("%s.fromdata %d %s", kind, start, strings.Repeat("ff", 128)))
+		case 1:
+			lines = append(lines, fmt.Sprintf("%s.fromdata %d -", kind, start), fmt.Sprintf("%s.rev %d", kind, idx))
+		default:
+			// all but 1..3 members: complement of a sparse block
+			var sb strings.Builder
+			for k := r.Range(1, 3); k > 0; k-- {
+				sb.WriteString(le16(r.PickInt(0, 1023, 63, 64, r.Intn(1024))))
+			}
+			lines = append(lines, fmt.Sprintf("%s.fromdata %d %s", kind, start, sb.String()), fmt.Sprintf("%s.rev %d", kind, idx))
+		}
+		for j := r.Range(1, 2); j > 0; j-- {
+			n := r.PickInt(1021, 1022, 1023, 1024, 1025, 1026, 2000, 3000, r.Range(1000, 1030))
+			if r.Chance(1, 4) {
+				pos := r.PickInt(0, 1, 2)
+				lines = append(lines, fmt.Sprintf("%s.iter %d %s %d %d %d", kind, idx, r.Pick("f", "r"), pos+1024+r.Intn(2), pos, n))
+			} else {
+				lines = append(lines, fmt.Sprintf("%s.getn %d %s %d", kind, idx, r.Pick("f", "r"), n))
+			}
+		}
+	}
+	for j := 1; j > 0; j-- {
+		lines = append(lines, fmt.Sprintf("%ss.getn %s %d", kind, r.Pick("f", "r"), r.PickInt(1023, 1024, 1025, 2047, 2048, 2049, 3072, 3073, r.Range(1000, 3100))))
+	}
+	return corr.Case{Tag: "full-blocks", Lines: lines}
+}
+
 func genMalformed(r *rng.R) corr.Case {
 	bad := []string{"", "nope", "marshal", "marshal c", "unmarshal a", "unmarshal a 0", "unmarshal a zz", "unmarshal c 00", "unmarshal a 0G", "roundtrip", "roundtrip c",
 		"big.fromi64", "big.fromi64 x", "big.fromi64 9223372036854775808", "big.set 0 1", "big.set x 1", "big.getn 0 f 1", "big.getn 9 f 1", "big.iter 0 f 3 0", "big.show 5", "big.rev 1",
@@ -1182,9 +1225,58 @@ func fixedCases() []corr.Case {
 		lines = append(lines, "tips.getn f 1000", "tips.getn r 1000", "tips.getn r -1")
 		cs = append(cs, corr.Case{Tag: "fixed:u32tip-boundaries", Lines: lines})
 	}
+	// FULL blocks (all 1024 members), 1023 members, and n around 1024: built from 128 x ff, and as the complement of an
+	// empty block / of a single-member block; single-block and list forms, both directions
+	{
+		ff := strings.Repeat("ff", 128)
+		for _, kind := range []string{"big", "tip"} {
+			start := "8388608" // 2^23: beyond the uint32 product's range for BigU32
+			if kind == "tip" {
+				start = "4194303" // MaxU32TipStart
+			}
+			lines := []string{"new",
+				kind + ".fromdata " + start + " " + ff,  // block 0: full
+				kind + ".fromdata 5 -", kind + ".rev 1", // block 1: complement of the empty block = full
+			}
+			if kind == "big" {
+				lines = append(lines, "big.fromi64 3000", "big.rev 2") // block 2: 1023 members (all but 3000 % 1024)
+			} else {
+				lines = append(lines, "tip.fromu32 3000", "tip.rev 2")
+			}
+			lines = append(lines, kind+".show 0", kind+".show 1", kind+".show 2")
+			for blk := 0; blk < 3; blk++ {
+				for _, d := range []string{"f", "r"} {
+					for _, n := range []int{1, 1023, 1024, 1025} {
+						lines = append(lines, fmt.Sprintf("%s.getn %d %s %d", kind, blk, d, n))
+					}
+					lines = append(lines, fmt.Sprintf("%s.iter %d %s 1030 2 1025", kind, blk, d))
+				}
+			}
+			for _, d := range []string{"f", "r"} {
+				for _, n := range []int{1024, 2047, 2048, 3071, 4000} {
+					lines = append(lines, fmt.Sprintf("%ss.getn %s %d", kind, d, n))
+				}
+			}
+			cs = append(cs, corr.Case{Tag: "fixed:full-blocks", Lines: lines})
+		}
+	}
 	cs = append(cs, corr.Case{Tag: "fixed:empty-lists", Lines: []string{"new", "bigs.getn f -1", "bigs.getn r 5", "tips.getn f -1", "tips.getn r 0", "bigs.rev", "tips.rev"}})
 	return cs
 }
+
+// lastUnknownCfg: the oracle answered `unknown-cfg` on the line compared last — it refuses to predict an operation whose
+// behaviour depends on a fact the extractor could not classify. That is a broken tie (T), never a P-disagreement.
+var lastUnknownCfg bool
+
+func accept(oracle, impl string) bool {
+	lastUnknownCfg = oracle == "unknown-cfg"
+	if lastUnknownCfg {
+		return false
+	}
+	return corr.DefaultAccept(oracle, impl)
+}
+
+func tOnly(line string) bool { return lastUnknownCfg || strings.HasPrefix(line, "magic ") }
 
 func spec() corr.Spec {
 	return corr.Spec{
@@ -1193,13 +1285,18 @@ func spec() corr.Spec {
 		Count: func(tier string) int {
 			switch tier {
 			case "quick":
-				return 6000
+				return 5000
 			case "thorough":
 				return 100000
 			}
-			return 150000
+			return 15000 // search: after a broken tie; a run through S7 stays well under 2 minutes
 		},
 		Gen: func(r *rng.R, tier string, i int) corr.Case {
+			// full blocks are expensive on the oracle side (1024 list writes per call): a small share; the fixed
+			// `full-blocks` scripts cover every n class on every run
+			if r.Chance(1, 60) {
+				return genFullBlocks(r)
+			}
 			switch x := r.Intn(20); {
 			case x < 5:
 				return genMarshal(r)
@@ -1215,7 +1312,9 @@ func spec() corr.Spec {
 				return genMalformed(r)
 			}
 		},
-		Run: runCase,
+		Run:    runCase,
+		TOnly:  tOnly,
+		Accept: accept,
 		NonTrivial: func(c corr.Case, res corr.Result) bool {
 			for i, l := range c.Lines {
 				switch {
@@ -1231,12 +1330,15 @@ func spec() corr.Spec {
 		},
 		Classify: func(c corr.Case, line int, want, got string) string {
 			f := strings.Fields(c.Lines[line])
+			if want == "unknown-cfg" {
+				return "C09:corr:unknown-cfg"
+			}
 			if len(f) == 0 {
 				return "C09:corr:empty-line"
 			}
 			return "C09:corr:" + f[0]
 		},
-		Rule: "scripts over two bitmap registers and two block lists: Marshal/round trip of bitmaps with 0,1,2,62..66,127,128,1023,1024 and random member counts under dense-only / sparse-only / default traversal; Unmarshal of byte strings of every length 0..130 and structured classes (valid sparse, one bad element incl. 1024 and negative, odd length, too long, dense, 126 bytes, random) into empty and non-empty bitmaps; BigU32 from int64 at 0, 2^32, 2^33+5, (2^32-1)*1024 +-1, negatives, random in and out of range, then SetI64 of same-block / neighbouring / far integers; U32BitTip over all-range uint32; single-block and list iteration in both directions with n in {-1,0,1,..,1025}; FromData constructors; malformed lines. Non-trivial: a non-empty marshal, an unmarshal of at least one byte, or a block operation that succeeded; distinct = distinct script text",
+		Rule: "scripts over two bitmap registers and two block lists: Marshal/round trip of bitmaps with 0,1,2,62..66,127,128,1023,1024 and random member counts under dense-only / sparse-only / default traversal; Unmarshal of byte strings of every length 0..130 and structured classes (valid sparse, one bad element incl. 1024 and negative, odd length, too long, dense, 126 bytes, random) into empty and non-empty bitmaps; BigU32 from int64 at 0, 2^32, 2^33+5, (2^32-1)*1024 +-1, negatives, random in and out of range, then SetI64 of same-block / neighbouring / far integers; U32BitTip over all-range uint32; single-block and list iteration in both directions with n in {-1,0,1,..,1025}; FromData constructors; FULL blocks (128 x ff, complement of an empty / sparse block) with n in {1021..1026, 2000, 3000} and list forms at multiples of 1024 +-1; malformed lines. Non-trivial: a non-empty marshal, an unmarshal of at least one byte, or a block operation that succeeded; distinct = distinct script text",
 		Assumptions: []string{
 			"as C08: slices shorter than 2^63, bitmaps of 16 words",
 			"U32BitTip values are built through the package's constructors (Start <= MaxU32TipStart); BigU32 Start is any uint32 (NewBigU32FromData)",
